@@ -826,17 +826,18 @@ class VMF:
             worldspawn.solids = []
         map_obj.brushes = worldspawn.solids
 
-        for ent in tree.find_all('Entity'):
-            map_obj.add_ent(
-                Entity.parse(map_obj, ent, False)  # hidden=False
-            )
-
-        # find hidden entities
-        for hidden_ent in tree.find_all('hidden'):
-            for ent in hidden_ent:
+        # Visible entities are 'entity' blocks, hidden ones are wrapped in a 'hidden' block. Read both kinds
+        # in file order, so the order of VMF.entities is what export() wrote.
+        for block in tree:
+            if block.name == 'entity':
                 map_obj.add_ent(
-                    Entity.parse(map_obj, ent, True)  # hidden=True
+                    Entity.parse(map_obj, block, False)  # hidden=False
                 )
+            elif block.name == 'hidden':
+                for ent in block:
+                    map_obj.add_ent(
+                        Entity.parse(map_obj, ent, True)  # hidden=True
+                    )
 
         return map_obj
 
